@@ -160,6 +160,22 @@ pub fn exec_join(case: &JoinCase, out: &mut CaseOut) -> Result<(), Fail> {
             v,
             expect
         );
+        // the view also has an active side: iter_members() / num_members() are exactly the records that
+        // are not Down, whatever the order and multiplicity of delivery was
+        let mut active_records: Vec<Id> = inst.foca.iter_membership_state().filter(|m| m.state() != State::Down).map(|m| *m.id()).collect();
+        let mut listed: Vec<Id> = inst.foca.iter_members().map(|m| *m.id()).collect();
+        active_records.sort();
+        listed.sort();
+        ensure!(
+            listed == active_records && inst.foca.num_members() == active_records.len(),
+            "C01:active-view-differs-from-records",
+            "after delivering the multiset {:?} in order {:?}: records that are not Down {:?}, iter_members() {:?}, num_members() {}",
+            case.updates,
+            plan.order,
+            active_records,
+            listed,
+            inst.foca.num_members()
+        );
         if let Some(f) = &first_view {
             ensure!(*f == v, "C01:order-dependent-view", "two delivery plans of the same multiset give different views:\n {:?}\n {:?}", f, v);
         } else {
